@@ -105,6 +105,11 @@ pub fn obs_of(o: &Oracle, cp: u32) -> Value {
         "wm": [one("UCM", "width_mapping_rule", &[cp]), one("UCP", "width_mapping_rule", &[a, cp]), one("UCM", "width_mapping_rule", &[cp, a]),
                one("UCP", "width_mapping_rule", &[0xff21, cp]), one("UCM", "width_mapping_rule", &[cp, 0xff21])],
         "lc": [one("UCM", "case_mapping_rule", &[cp]), one("NICK", "case_mapping_rule", &[big_a, cp]), one("UCM", "case_mapping_rule", &[cp, big_a])],
+        // every code point inside 8-byte blocks of lower-case ASCII (first block, second block): word-at-a-time scans
+        "blk": [one("UCM", "case_mapping_rule", &[cp, a, a, a, a, a, a, a]), one("NICK", "case_mapping_rule", &[a, a, a, a, a, a, a, a, cp, a, a, a, a, a, a, a]),
+                one("UCP", "width_mapping_rule", &[cp, a, a, a, a, a, a, a]), one("UCM", "width_mapping_rule", &[a, a, a, a, a, a, a, a, cp, a, a, a, a, a, a, a]),
+                one("OPQ", "additional_mapping_rule", &[cp, a, a, a, a, a, a, a]), one("OPQ", "additional_mapping_rule", &[a, a, a, a, a, a, a, a, cp, a, a, a, a, a, a, a]),
+                one("NICK", "additional_mapping_rule", &[a, cp, a, a, a, a, a, a]), one("NICK", "additional_mapping_rule", &[a, a, a, a, a, a, a, a, cp, a, a, a, a, a, a, a])],
         "osp": one("OPQ", "additional_mapping_rule", &[a, cp, a]),
         "nsp": one("NICK", "additional_mapping_rule", &[a, cp, a]),
         // the same character AFTER the first character that triggers the copying path
